@@ -68,3 +68,36 @@ for c, f, fn, pats in V:
         print(c, len(p.splitlines()), 'lines')
     finally:
         shutil.rmtree(d)
+
+# --- later additions (fix commits whose reverse no longer applies after baddf2d / 0de79a0)
+def bitfield_noguard(lines):
+    s = ''.join(lines)
+    a = '''		if op.bitOffset < 0 || n < op.bitOffset || int64(n) >= int64(maxStringLength)*8 {
+			output.data = respErrorString("ERR bit offset is not an integer or out of range")
+			return
+		}
+'''
+    assert a in s
+    return s.replace(a, '').splitlines(True)
+
+def bitfield_int_overflow(lines):
+    s = ''.join(lines)
+    a = 'int64(n) >= int64(maxStringLength)*8'
+    assert a in s
+    return s.replace(a, 'n >= maxStringLength*8').splitlines(True)
+
+V2 = [('24e59ca', F, bitfield_noguard, None), ('5faaac4', F, bitfield_int_overflow, None)]
+for c, f, fn, pats in V2:
+    d = tempfile.mkdtemp(prefix='reintro.', dir='/tmp')
+    try:
+        os.makedirs(d + '/a'); os.makedirs(d + '/b')
+        shutil.copy('/repo/' + f, d + '/a/' + f)
+        lines = open('/repo/' + f).read().splitlines(True)
+        open(d + '/b/' + f, 'w').write(''.join(fn(lines)))
+        p = subprocess.run(['diff', '-u', 'a/' + f, 'b/' + f], cwd=d, capture_output=True, text=True).stdout
+        open(f'{out}/reintro-{c}.diff', 'w').write(p)
+        if os.path.exists(f'{out}/fix-{c}.diff'):
+            os.remove(f'{out}/fix-{c}.diff')
+        print(c, len(p.splitlines()), 'lines')
+    finally:
+        shutil.rmtree(d)
